@@ -122,7 +122,7 @@ func init() {
 
 func TestC12Close(t *testing.T) {
 	rec := evid.New(t, "C12", "generated node configurations (custom, TCP/UDP server with peers, TCP/UDP client against a live or refusing address, serial through the hook) with traffic, gated (blocked) transports, a consumer that is absent, running or paused, concurrent Write* callers and a generated close point (immediately, after a delay, once a writer is parked in the transport); Close must return within a bound far above normal (on a miss two goroutine dumps prove the deadlock), afterwards no goroutine started by the library is alive, every listening port can be bound again, accepted connections are closed, each custom transport was closed exactly once, Events() is closed, and racing/following Write* calls return; non-trivial = close while a goroutine is known to be blocked (parked writer, paused/absent consumer with pending events, client in back-off); distinct by hash of the scenario")
-	rec.Require("blocked-writer", "no-consumer", "paused-consumer", "client-backoff", "open-completes-during-close", "reader-failed-while-writer-blocked", "racing-writers", "tcps", "udps", "tcpc", "udpc", "serial", "custom", "bcast", "stream-request-event-undelivered", "custom-transport-read-failed-before-close", "client-attempt-unanswered")
+	rec.Require("blocked-writer", "no-consumer", "paused-consumer", "client-backoff", "open-completes-during-close", "reader-failed-while-writer-blocked", "racing-writers", "tcps", "udps", "tcpc", "udpc", "serial", "custom", "bcast", "stream-request-event-undelivered", "custom-transport-read-failed-before-close", "client-attempt-unanswered", "peer-half-closed")
 	evid.Check(t, rec, evid.N(250, 700), func(t *rapid.T) {
 		drawNodeInit(t)
 		w := &c12World{}
@@ -412,7 +412,14 @@ func runC12(w *c12World) ([]string, error) {
 	}
 	for _, e := range w.eps {
 		if e.peerGoes && len(e.peerConns) > 0 {
-			e.peerConns[0].Close()
+			if tc, ok := e.peerConns[0].Conn.(*net.TCPConn); ok && e.frames%2 == 1 {
+				// the peer only ends its sending direction and keeps reading: the node sees the end of the stream,
+				// the connection is still the node's to release
+				tc.CloseWrite() //nolint:errcheck
+				blocked = append(blocked, "peer-half-closed")
+			} else {
+				e.peerConns[0].Close()
+			}
 		}
 	}
 	switch w.consumer {
@@ -434,7 +441,11 @@ func runC12(w *c12World) ([]string, error) {
 			p := e.pipe
 			e.mu.Unlock()
 			if p != nil && p.WaitParkedWriter(500*time.Millisecond) {
-				p.FailReads(errors.New("injected serial read error"))
+				if e.frames%2 == 1 {
+					p.FailReads(io.EOF) // an unplugged adapter reads as end of file; the handle is still open
+				} else {
+					p.FailReads(errors.New("injected serial read error"))
+				}
 				time.Sleep(2 * time.Millisecond)
 				blocked = append(blocked, "reader-failed-while-writer-blocked")
 			}
@@ -442,7 +453,11 @@ func runC12(w *c12World) ([]string, error) {
 	}
 	for _, e := range w.eps {
 		if e.kind == "custom" && e.customFault != "" {
-			e.pipe.FailReads(errors.New("injected custom transport read error"))
+			if e.frames%2 == 1 {
+				e.pipe.FailReads(io.EOF)
+			} else {
+				e.pipe.FailReads(errors.New("injected custom transport read error"))
+			}
 			time.Sleep(2 * time.Millisecond)
 			if e.customFault == "read-error-once" {
 				e.pipe.ClearReadError()
